@@ -212,6 +212,10 @@ pub struct LargeCase {
     /// (smallest such m plus offset, or its mirror n - m)
     #[serde(default)]
     pub overflow_edge: Option<(i8, bool)>,
+    /// every source cell carries mass (every row of the operator is exercised in one projection),
+    /// and the target is a large fraction of the source
+    #[serde(default)]
+    pub dense: bool,
 }
 
 /// ln C(n, m) by a direct sum of logarithms (harness-side, independent of sfs).
@@ -240,12 +244,14 @@ fn large_strategy(max_n: usize) -> impl Strategy<Value = LargeCase> {
         prop::collection::vec((any::<u16>(), 1u16..1000), 1..4),
         prop::option::weighted(0.35, (-4i8..=14, any::<bool>())),
         1030usize..=2400,
+        prop::bool::weighted(0.3),
     )
-        .prop_map(move |(n, m_draw, cells, overflow_edge, edge_n)| LargeCase {
+        .prop_map(move |(n, m_draw, cells, overflow_edge, edge_n, dense)| LargeCase {
             n: if overflow_edge.is_some() { edge_n.min(max_n) } else { n.min(max_n) },
             m_draw,
             cells,
             overflow_edge,
+            dense,
         })
 }
 
@@ -256,8 +262,18 @@ fn eval_large(_ctx: &Ctx, case: &LargeCase) -> Verdict {
         let edge = (start as i64 + off as i64).clamp(1, n as i64) as usize;
         m = if mirror { n - edge.min(n - 1) } else { edge };
     }
+    if case.dense && case.overflow_edge.is_none() {
+        // between a quarter of the source and the full source
+        m = n / 4 + pick_idx(case.m_draw, n - n / 4) + 1;
+        m = m.min(n);
+    }
     let mut values = vec![0.0; n + 1];
     let mut ks = Vec::new();
+    if case.dense {
+        for (k, v) in values.iter_mut().enumerate() {
+            *v = 1.0 + (crate::engine::splitmix64(0xC03 ^ k as u64 ^ (n as u64) << 20) % 97) as f64;
+        }
+    }
     for (kd, v) in &case.cells {
         let k = pick_idx(*kd, n + 1);
         values[k] += *v as f64;
@@ -284,7 +300,8 @@ fn eval_large(_ctx: &Ctx, case: &LargeCase) -> Verdict {
     Ok(Pass::new()
         .nontrivial(m < n)
         .label(if case.overflow_edge.is_some() && n >= 1030 { "target-at-binomial-overflow-edge" } else { "target-generic" })
-        .label(if n <= 170 { "n<=170(table)" } else if n < 1030 { "171..1029(ln-gamma)" } else { "n>=1030(beyond f64 binomials)" }))
+        .label(if n <= 170 { "n<=170(table)" } else if n < 1030 { "171..1029(ln-gamma)" } else { "n>=1030(beyond f64 binomials)" })
+        .label(if case.dense { "dense-source(every row of the operator)" } else { "sparse-source(1..3 rows)" }))
 }
 
 // ---------------------------------------------------------------------------------------------
@@ -488,7 +505,7 @@ pub fn check(ctx: &Ctx) -> Check {
         }),
         Box::new(RandomPart {
             name: "large-1d",
-            rule: "one-axis sizes around the implementation's edges (169..172, 255/256, 340..342, 1023/1024, 1028..1031, 2047/2048, 4095..4097; thorough also 8191/8192 and random sizes up to 8200 chromosomes), sparse inputs, targets 1..n and (35%) targets at the edge of the band where C(n, m) overflows f64: finite, agrees with the ratio-recurrence oracle to 1e-8, mass preserved; non-trivial = m < n",
+            rule: "one-axis sizes around the implementation's edges (169..172, 255/256, 340..342, 1023/1024, 1028..1031, 2047/2048, 4095..4097; thorough also 8191/8192 and random sizes up to 8200 chromosomes), sparse inputs (1..3 source cells) or (30%) dense inputs in which every source cell carries mass and the target is n/4..n, i.e. every row of the operator takes part in one projection; targets 1..n and (35%) targets at the edge of the band where C(n, m) overflows f64: finite, agrees with the ratio-recurrence oracle to 1e-8, mass preserved; non-trivial = m < n",
             cases: ctx.tier.pick(96, 3000),
             strategy: {
                 let max_n = ctx.tier.pick(4100usize, 8200);
